@@ -102,6 +102,7 @@ Definition parse_enc (s : string) : res period :=
 
 Inductive case :=
   | CDump (sy : sys) (has_group : bool) (count : nat) (ids roles pids gids : list nat)
+          (pos : option (list nat))   (* members_position set explicitly by the situation *)
           (dirty : bool) (before after : list request)
   | CSkip         (* a value that is not an exact small integer: not sent to the model *)
   | CRich.        (* oracle-only stream: enum / str / date variables, several group entities *)
@@ -113,6 +114,10 @@ Definition mk_simu0 (has_group : bool) (count : nat) (ids roles pids gids : list
      u_members := if has_group then ids else [];
      u_roles := if has_group then roles else [];
      u_pos := None; u_st := init [] |}.
+
+Definition with_pos (u : simu) (pos : option (list nat)) : simu :=
+  {| u_pcount := u_pcount u; u_pids := u_pids u; u_gcount := u_gcount u; u_gids := u_gids u;
+     u_members := u_members u; u_roles := u_roles u; u_pos := pos; u_st := u_st u |}.
 
 Definition onats (l : list nat) : obs := olist (fun n => OZ (Z.of_nat n)) l.
 
@@ -142,9 +147,9 @@ Definition run (c : case) : obs :=
   match c with
   | CSkip => OS "skip"%string
   | CRich => OS "oracle-only"%string
-  | CDump sy hg count ids roles pids gids dirty before after =>
+  | CDump sy hg count ids roles pids gids pos dirty before after =>
       let og := if hg then Some std_entity else None in
-      let u0 := mk_simu0 hg count ids roles pids gids in
+      let u0 := with_pos (mk_simu0 hg count ids roles pids gids) (if hg then pos else None) in
       let pp := pop_of og u0 in
       let fuel := enough_fuel sy in
       let '(s1, a1) := Engine.run fuel sy pp (init []) before in
